@@ -21,7 +21,7 @@ def run(chk):
     chk.rule = ("ops cells (debug assertions on, compared with the exact oracle: C01 predicates) and tess (release build: C02/C04 predicates, finiteness) on the measure-zero families: generators on faces/edges/corners, "
                 "n=1, n=2, collinear, coplanar, exact and near-exact lattices (perturbation 0..1e-6), lattices on the walls, co-spherical (random on a sphere and exact lattice spheres), clusters of diameter 1e-3..1e-12 of the box; "
                 "1D/2D/3D, periodic/reflective; op clip1: on reachable cells of tie-prone families (lattices, exact co-spherical sets incl. Pythagorean ones, on-boundary, uniform) EVERY vertex must be removed by the next bisector iff the exact in-sphere determinant of the five snapped integer points is negative (ties and clear float decisions alike; an exact zero must have gone through the exact predicate), with a positively oriented dual triple, and the exact predicate must have been called at least once per filter tie; non-trivial = input of a degenerate family on which the exact predicate was invoked or the generators touch the boundary; distinct by record")
-    chk.lean(['MVoro.Props.C05', 'MVoro.Proofs.Misc', 'MVoro.Proofs.VorSet'], ['MVoro.Obl.Grid', 'MVoro.Obl.HalfSpace'], ['Grid', 'HalfSpace'])
+    chk.lean(['MVoro.Props.C05', 'MVoro.Proofs.Misc', 'MVoro.Proofs.VorSet'], ['MVoro.Obl.Grid', 'MVoro.Obl.HalfSpace', 'MVoro.Obl.ClipVertex', 'MVoro.Obl.RightLoc'], ['Grid', 'HalfSpace', 'ClipVertex', 'RightLoc', 'Geom'])
     exact_used = 0
     # debug build, against the exact oracle
     got = run_cells_op(chk, op='cells')
